@@ -16,7 +16,9 @@ type Effect struct {
 	Site    ssa.Instruction
 	Fn      *ssa.Function
 	Call    ssa.CallInstruction
-	Key     *Expr // key expression for store effects
+	Key     *Expr // key expression for store effects (for an iterator: its start bound)
+	Prefix  *Expr // the prefix of the prefix store the call goes through (nil for a plain store)
+	End     *Expr // iterators: the end bound
 	// Generic: the section depends on a parameter of Fn (a helper handed the prefix or the key): the
 	// effect is re-created, with the section resolved, at every call site of Fn (Via = Fn there).
 	Generic bool
@@ -182,17 +184,27 @@ func (w *World) EffectsOf(fn *ssa.Function) []Effect {
 					var key *Expr
 					sec := "?"
 					var secExpr *Expr
-					if len(cc.Args) > 0 {
-						key = w.ExprOf(cc.Args[0])
+					// (a method called on a concrete store type carries its receiver as the first argument)
+					margs := cc.Args
+					if !cc.IsInvoke() && len(margs) > 0 {
+						margs = margs[1:]
+					}
+					var endE, prefE *Expr
+					if len(margs) > 0 {
+						key = w.ExprOf(margs[0])
 						sec = w.SectionOfKey(key)
 						secExpr = key
+					}
+					if kind == "StoreIter" && len(margs) > 1 {
+						endE = w.ExprOf(margs[1])
 					}
 					// a prefix store contributes its own prefix
 					if ps, pe := w.prefixOfStore(cc); ps != "" {
 						sec = ps
 						secExpr = pe
+						prefE = pe
 					}
-					e := Effect{Kind: kind, Method: name, Section: sec, Site: in, Call: call, Key: key}
+					e := Effect{Kind: kind, Method: name, Section: sec, Site: in, Call: call, Key: key, Prefix: prefE, End: endE}
 					if sec == "?" && secExpr != nil && paramDeps(fn, secExpr) {
 						e.Generic, e.SecExpr = true, secExpr
 					}
